@@ -33,6 +33,8 @@ Reasons(e) ==
     [] e.ev = "cmdlookup" -> IF e.short # ResolveCmd(e.cands, e.app, e.code) THEN <<"embedded-command-lookup">> ELSE <<>>
     [] e.ev = "const" -> IF e.value \in {e.dict[i] : i \in 1..Len(e.dict)} THEN <<>> ELSE <<"constant-differs">>
     [] e.ev = "type" -> IF e.loads => (e.enc /\ e.dec) THEN <<>> ELSE <<"type-not-codable">>
+    \* an AVP of an undefined code is carried as an opaque placeholder (decoding proceeds, the bytes come back)
+    [] e.ev = "undef" -> IF e.ok THEN <<>> ELSE <<"undefined-code-not-carried">>
 Next == /\ l <= Len(Trace)
         /\ l' = l + 1
         /\ LET r == Reasons(Trace[l]) IN r = <<>> \/ PrintT(<<"BADLINE", l, r>>)
